@@ -31,6 +31,7 @@ const (
 	cvSlice // local slice with tracked length
 	cvNil
 	cvTuple // the results of an inlined helper with several results
+	cvTable // a struct or map value with known fields / entries (a composite literal, or a package-level table never written)
 )
 
 type cVal struct {
@@ -43,6 +44,7 @@ type cVal struct {
 	lit    *ast.FuncLit
 	cenv   *cEnv
 	tup    []cVal
+	tab    map[string]cVal // cvTable: field name or constant key -> value
 }
 
 type cEnv struct {
@@ -124,6 +126,66 @@ type compModel struct {
 	sites  int
 	emits  map[string]int // opcode -> number of emission sites
 	obs    []compOb
+	inlinedOnly []string // helper methods verified only where they are called
+	recs   []emitRec // every emission of a known opcode, with what its path knows
+}
+
+// emitRec: one emission of an opcode on one path of the walk: the operands it was given and the facts and node types
+// the path had established. The token -> opcode and token -> operand tables of the compiler are read off these records
+// (whatever form the dispatch takes: switch, if chain, lookup table, helper).
+type emitRec struct {
+	method   string
+	op       string
+	operands []cVal
+	lits     []Lit
+	types    map[string]string
+	pos      token.Pos
+}
+
+// under reports whether the path of the record is possible when the Op attribute of the node of AST type ownerType
+// equals tok, and whether the path has pinned it to that value.
+func (r *emitRec) under(ownerType string, tok int64) (possible, pinned bool) {
+	possible = true
+	for _, l := range r.lits {
+		if !strings.HasSuffix(l.Atom, ".Op") || l.L != nil {
+			continue
+		}
+		if r.types[strings.TrimSuffix(l.Atom, ".Op")] != ownerType {
+			continue
+		}
+		if !l.evalConst(tok) {
+			possible = false
+		}
+		if l.Rel == "==" && l.Val == tok {
+			pinned = true
+		}
+	}
+	return
+}
+
+// emittedUnder: what the compiler method `method` emits for a node of type ownerType whose Op is tok: the opcodes of the
+// records whose path pins Op to tok or (for a default branch) is at least possible under it while having tested Op.
+func (m *compModel) emittedUnder(method, ownerType string, tok int64, keep func(r *emitRec) bool) []*emitRec {
+	var out []*emitRec
+	for i := range m.recs {
+		r := &m.recs[i]
+		if r.method != method || (keep != nil && !keep(r)) {
+			continue
+		}
+		tested := false
+		for _, l := range r.lits {
+			if strings.HasSuffix(l.Atom, ".Op") && l.L == nil && r.types[strings.TrimSuffix(l.Atom, ".Op")] == ownerType {
+				tested = true
+			}
+		}
+		if !tested {
+			continue
+		}
+		if possible, _ := r.under(ownerType, tok); possible {
+			out = append(out, r)
+		}
+	}
+	return out
 }
 
 type compOb struct {
@@ -174,20 +236,48 @@ func buildCompModel(c *Ctx) *compModel {
 		prim[n] = true
 	}
 	callers := map[string]map[string]bool{}
+	notInlined := map[string]bool{}
 	for _, fd := range c.allFuncDecls("internal/compiler") {
 		if fd.Recv == nil || recvTypeName(fd.Recv.List[0].Type) != "compiler" || fd.Body == nil {
 			continue
 		}
 		from := fd.Name.Name
+		var recvObj types.Object
+		if len(fd.Recv.List[0].Names) > 0 {
+			recvObj = m.info.Defs[fd.Recv.List[0].Names[0]]
+		}
+		calledFuns := map[ast.Expr]bool{}
 		ast.Inspect(fd.Body, func(n ast.Node) bool {
 			if call, ok := n.(*ast.CallExpr); ok {
+				calledFuns[call.Fun] = true
 				if f := calleeOf(m.info, call); f != nil && f.Pkg() == m.pkg.Types {
 					if sig, ok := f.Type().(*types.Signature); ok && sig.Recv() != nil {
 						if callers[f.Name()] == nil {
 							callers[f.Name()] = map[string]bool{}
 						}
 						callers[f.Name()][from] = true
+						// only calls on the method's own receiver are evaluated in place by the walker
+						se, _ := call.Fun.(*ast.SelectorExpr)
+						id, _ := func() (*ast.Ident, bool) {
+							if se == nil {
+								return nil, false
+							}
+							i, ok := se.X.(*ast.Ident)
+							return i, ok
+						}()
+						if id == nil || recvObj == nil || m.info.Uses[id] != recvObj {
+							notInlined[f.Name()] = true
+						}
 					}
+				}
+			}
+			return true
+		})
+		// a method value (c.helper used without calling it) escapes the walker too
+		ast.Inspect(fd.Body, func(n ast.Node) bool {
+			if se, ok := n.(*ast.SelectorExpr); ok && !calledFuns[se] {
+				if sel := m.info.Selections[se]; sel != nil && sel.Kind() == types.MethodVal && sel.Obj().Pkg() == m.pkg.Types {
+					notInlined[sel.Obj().Name()] = true
 				}
 			}
 			return true
@@ -217,6 +307,13 @@ func buildCompModel(c *Ctx) *compModel {
 			continue
 		}
 		if prim[fd.Name.Name] {
+			continue
+		}
+		// a helper without a specification of its own whose every use is a call on the receiver from another method
+		// is evaluated in place at each of those calls, with the arguments passed there: walking it once more with
+		// unknown arguments would decide nothing further
+		if _, hasSpec := m.specs[fd.Name.Name]; !hasSpec && fd.Name.Name != "condition" && len(callers[fd.Name.Name]) > 0 && !notInlined[fd.Name.Name] && !callers[fd.Name.Name][fd.Name.Name] {
+			m.inlinedOnly = append(m.inlinedOnly, fd.Name.Name)
 			continue
 		}
 		m.verifyMethod(fd)
@@ -1395,6 +1492,35 @@ func (w *cWalker) assign(s *ast.AssignStmt, st *cState) []*cState {
 			}
 			return out
 		}
+		// v, ok := table[key]
+		if ie, ok := s.Rhs[0].(*ast.IndexExpr); ok {
+			if _, isMap := info.TypeOf(ie.X).Underlying().(*types.Map); isMap {
+				var out []*cState
+				for _, r := range w.eval(ie.X, st) {
+					for _, ix := range w.eval(ie.Index, r.st) {
+						var rs []tabRes
+						if r.v.k == cvTable {
+							rs = w.tableIndex(r.v, ix.v, info.TypeOf(ie.X), ix.st)
+						} else {
+							rs = []tabRes{{ix.st, cVal{k: cvOpaque}, cVal{k: cvOpaque}}}
+						}
+						for _, tr := range rs {
+							for i, v := range []cVal{tr.v, tr.found} {
+								if id, ok := s.Lhs[i].(*ast.Ident); ok && id.Name != "_" {
+									if s.Tok == token.DEFINE {
+										tr.st.env.vars[w.objOf(id)] = v
+									} else {
+										tr.st.env.set(w.objOf(id), v)
+									}
+								}
+							}
+							out = append(out, tr.st)
+						}
+					}
+				}
+				return out
+			}
+		}
 		// a, b := call()  (scalarInfo/arrayInfo/LookupVar ...)
 		var out []*cState
 		for _, r := range w.eval(s.Rhs[0], st) {
@@ -1572,6 +1698,13 @@ func (w *cWalker) eval(e ast.Expr, st *cState) []cRes {
 			}
 			return one(st, v)
 		}
+		if init := w.m.c.immutableVarInit(w.m.pkg, info.Uses[x]); init != nil {
+			if cl, ok := init.(*ast.CompositeLit); ok {
+				if rs := w.compositeLit(cl, st); len(rs) == 1 && rs[0].v.k == cvTable {
+					return rs
+				}
+			}
+		}
 		return one(st, cVal{k: cvOpaque, id: x.Name})
 	case *ast.SelectorExpr:
 		var out []cRes
@@ -1598,6 +1731,12 @@ func (w *cWalker) eval(e ast.Expr, st *cState) []cRes {
 				if x.Sel.Name == "Arrays" {
 					out[len(out)-1].v = cVal{k: cvOpaque, id: "Arrays(" + r.v.id + ")"}
 				}
+			case cvTable:
+				if fv, ok := r.v.tab[x.Sel.Name]; ok {
+					out = append(out, cRes{r.st, fv})
+				} else {
+					out = append(out, cRes{r.st, cVal{k: cvOpaque}})
+				}
 			case cvOpaque:
 				if r.v.id != "" {
 					out = append(out, cRes{r.st, cVal{k: cvOpaque, id: r.v.id + "." + x.Sel.Name}})
@@ -1623,6 +1762,10 @@ func (w *cWalker) eval(e ast.Expr, st *cState) []cRes {
 					}
 					id := r.v.id + "[" + idx + "]"
 					out = append(out, cRes{ix.st, cVal{k: cvExpr, id: id, typ: ix.st.types[id]}})
+				case r.v.k == cvTable:
+					for _, mr := range w.tableIndex(r.v, ix.v, info.TypeOf(x.X), ix.st) {
+						out = append(out, cRes{mr.st, mr.v})
+					}
 				case r.v.k == cvOpaque && strings.HasSuffix(r.v.id, ".Functions"):
 					// c.program.Functions[funcInfo.Index]
 					atom := "?"
@@ -1726,6 +1869,71 @@ func (w *cWalker) eval(e ast.Expr, st *cState) []cRes {
 	return one(st, cVal{k: cvOpaque})
 }
 
+type tabRes struct {
+	st    *cState
+	v     cVal
+	found cVal
+}
+
+// tableIndex: the value of table[key]. A constant key selects its entry; a symbolic key forks over the entries that
+// the facts of the path allow, each fork learning which key it was, plus one fork for a key that is not in the table
+// (zero value, found == false).
+func (w *cWalker) tableIndex(tab, key cVal, tabType types.Type, st *cState) []tabRes {
+	zero := cVal{k: cvOpaque}
+	if mt, ok := tabType.Underlying().(*types.Map); ok {
+		if b, ok := mt.Elem().Underlying().(*types.Basic); ok && b.Info()&types.IsInteger != 0 {
+			zero = cVal{k: cvConst, c: 0}
+		}
+	}
+	yes, no := cVal{k: cvConst, c: 1}, cVal{k: cvConst, c: 0}
+	if key.k == cvConst || (key.k == cvLin && key.lin.IsConst()) {
+		kc := key.c
+		if key.k == cvLin {
+			kc = int64(key.lin.C)
+		}
+		if ev, ok := tab.tab[fmt.Sprint(kc)]; ok {
+			return []tabRes{{st, ev, yes}}
+		}
+		return []tabRes{{st, zero, no}}
+	}
+	atom := ""
+	if key.k == cvOpaque || key.k == cvExpr {
+		atom = key.id
+	}
+	if atom == "" || atom == "rangeidx" {
+		return []tabRes{{st, cVal{k: cvOpaque}, cVal{k: cvOpaque}}}
+	}
+	var keys []int64
+	for k := range tab.tab {
+		var n int64
+		if _, err := fmt.Sscan(k, &n); err != nil {
+			return []tabRes{{st, cVal{k: cvOpaque}, cVal{k: cvOpaque}}}
+		}
+		keys = append(keys, n)
+	}
+	sort.Slice(keys, func(i, j int) bool { return keys[i] < keys[j] })
+	var out []tabRes
+	missing := st.clone()
+	missingPossible := true
+	for _, k := range keys {
+		lit := Lit{Atom: atom, Rel: "==", Val: k}
+		switch w.decide(lit, st) {
+		case 1:
+			return []tabRes{{st, tab.tab[fmt.Sprint(k)], yes}}
+		case -1:
+			continue
+		}
+		f := st.clone()
+		f.lits = append(f.lits, lit)
+		out = append(out, tabRes{f, tab.tab[fmt.Sprint(k)], yes})
+		missing.lits = append(missing.lits, lit.negate())
+	}
+	if missingPossible {
+		out = append(out, tabRes{missing, zero, no})
+	}
+	return out
+}
+
 func linOf(v cVal) (Lin, bool) {
 	switch v.k {
 	case cvLin:
@@ -1763,6 +1971,59 @@ func (w *cWalker) compositeLit(cl *ast.CompositeLit, st *cState) []cRes {
 	}
 	if _, ok := t.Underlying().(*types.Slice); ok {
 		return one(st, cVal{k: cvSlice, lin: linC(len(cl.Elts))})
+	}
+	// a struct or map literal whose elements evaluate without forking: a table of known values
+	tab := map[string]cVal{}
+	elem := func(e ast.Expr) (cVal, bool) {
+		rs := w.eval(e, st)
+		if len(rs) != 1 || rs[0].st != st {
+			return cVal{}, false
+		}
+		return rs[0].v, true
+	}
+	switch u := t.Underlying().(type) {
+	case *types.Struct:
+		for i, el := range cl.Elts {
+			name, val := "", el
+			if kv, ok := el.(*ast.KeyValueExpr); ok {
+				if k, ok := kv.Key.(*ast.Ident); ok {
+					name = k.Name
+				}
+				val = kv.Value
+			} else if i < u.NumFields() {
+				name = u.Field(i).Name()
+			}
+			v, ok := elem(val)
+			if name == "" || !ok {
+				return one(st, cVal{k: cvOpaque})
+			}
+			tab[name] = v
+		}
+		for i := 0; i < u.NumFields(); i++ {
+			if _, ok := tab[u.Field(i).Name()]; !ok {
+				if b, ok := u.Field(i).Type().Underlying().(*types.Basic); ok && b.Info()&types.IsInteger != 0 {
+					tab[u.Field(i).Name()] = cVal{k: cvConst, c: 0}
+				}
+			}
+		}
+		return one(st, cVal{k: cvTable, tab: tab})
+	case *types.Map:
+		for _, el := range cl.Elts {
+			kv, ok := el.(*ast.KeyValueExpr)
+			if !ok {
+				return one(st, cVal{k: cvOpaque})
+			}
+			kc, ok := constInt(w.m.info, kv.Key)
+			if !ok {
+				return one(st, cVal{k: cvOpaque})
+			}
+			v, ok := elem(kv.Value)
+			if !ok {
+				return one(st, cVal{k: cvOpaque})
+			}
+			tab[fmt.Sprint(kc)] = v
+		}
+		return one(st, cVal{k: cvTable, tab: tab})
 	}
 	return one(st, cVal{k: cvOpaque})
 }
@@ -1839,12 +2100,6 @@ func (w *cWalker) call(x *ast.CallExpr, st *cState) []cRes {
 		switch id.Name {
 		case "opcodeInt":
 			return w.eval(x.Args[0], st)
-		case "incrAmount":
-			var out []cRes
-			for _, a := range w.evalArgs(x.Args, st) {
-				out = append(out, cRes{a.st, cVal{k: cvOpaque, id: "incrAmount"}})
-			}
-			return out
 		}
 		// any other plain function of the package (no receiver, so it cannot emit code): evaluated in place,
 		// like a closure, so that an opcode chosen by a helper is still a known constant
@@ -2122,6 +2377,13 @@ func (w *cWalker) emit(call *ast.CallExpr, args []ast.Expr, st *cState, via stri
 		name := m.opName(opv.c)
 		m.emits[name]++
 		sum := m.vm.ops[name]
+		{
+			ty := make(map[string]string, len(a.st.types))
+			for k, v := range a.st.types {
+				ty[k] = v
+			}
+			m.recs = append(m.recs, emitRec{method: w.method, op: name, operands: append([]cVal(nil), operands...), lits: append([]Lit(nil), a.st.lits...), types: ty, pos: call.Pos()})
+		}
 		w.tr(a.st, name)
 		if name == "Nop" {
 			out = append(out, cRes{a.st, cVal{k: cvOpaque}})
